@@ -8,6 +8,7 @@ Driver of the C07 section of the oracle.  Header `@ C07 <codec>` with codec one 
   parsestr <hex>          XxxParseToString(string)               -> <hex> | panic
   parsebytes <hex>        XxxParseToString([]byte)               -> <hex> | panic
   roundtrip <hex>         XxxParseToString(XxxFormatToString(s)) -> <hex> | panic
+  formatdig <hex>         XxxFormat(bytes) of a huge input               -> <len> <64-bit digest of the output> | panic
   parsen <hex> <dstlen>   XxxParse(make([]byte,dstlen), bytes)   -> <n> <hex of dst[:n]> | panic
                           (large stream: only the result prefix is compared)
 
@@ -133,6 +134,16 @@ def runOp (c : DrvCodec) (t : List String) : String :=
     match unhex h with
     | none => "bad-op"
     | some b => showRes (parseStrDrv c b)
+  | ["formatdig", h] =>
+    -- huge inputs (output of several MiB): `<len> <digest>` of XxxFormat(bytes); the rune codecs by
+    -- the tail-recursive evaluators (`c07_fast_eq_model`: equal to the value-level formatter)
+    match unhex h with
+    | none => "bad-op"
+    | some b =>
+      let o := if c.width = 8 then unicodeFormatFast b else if c.width = 4 then utf16FormatFast b else c.format b
+      match o with
+      | some o => s!"{o.length} {(o.foldl mix h0).toNat}"
+      | none => "panic"
   | ["scalars", lo, hi] =>
     match lo.toNat?, hi.toNat? with
     | some lo, some hi =>
